@@ -63,7 +63,7 @@ namespace Rx
 variable {Pkg : Type}
 
 /-- `handleSpecialPackage` for the members of an env change: packet size updates and hook calls
-in member order; a malformed packet size aborts the remaining members with an error. -/
+in member order; a malformed or unusable packet size aborts the remaining members with an error. -/
 def envMembers (ops : Ops Pkg) (nEnv : Nat) : List (Nat × Bytes × Bytes) → List (Ev Pkg) × Bool
   | [] => ([], true)
   | (t, old, new) :: rest =>
@@ -72,6 +72,8 @@ def envMembers (ops : Ops Pkg) (nEnv : Nat) : List (Nat × Bytes × Bytes) → L
       match ops.atoi new with
       | none => ([], false)
       | some n =>
+        -- a size without room for data after the header or beyond the header's length field is rejected
+        if n ≤ 8 ∨ n > 65535 then ([], false) else
         let r := envMembers ops nEnv rest
         (.packSize n :: hooks ++ r.1, r.2)
     else
@@ -105,7 +107,9 @@ def parseLoop (ops : Ops Pkg) : Nat → Rx Pkg → Rx Pkg × List (Ev Pkg) × Bo
           match rx.last with
           | some l => if ops.isDoneFinal l then [] else [.deliver ops.doneFinal]
           | none => [.deliver ops.doneFinal]
-        ({ rx with buf := [], eom := false }, ev, true)
+        -- the response is complete: `lastPkgRx` is forgotten (repo fix "forget the last received
+        -- package at the end of a response")
+        ({ rx with buf := [], eom := false, last := none }, ev, true)
       else (rx, [], true)
     | tok :: rest =>
       match ops.select tok rx.last with
